@@ -162,16 +162,19 @@ class YamlStore:
 def install_format_stub():
     """`logger.debug('Got new data: {}'.format(data))` in I2CElement.new_data formats the received buffer before the
     (disabled) logger drops the string; stock CrossHair realises the whole buffer for that.  format() of a symbolic
-    byte buffer / dict / list therefore yields a placeholder without touching the symbolic content.  In the code under
-    test such strings only feed logging."""
+    byte buffer therefore yields a placeholder without touching the symbolic content, and so does format() of a symbolic
+    int with an empty format spec (f'Deck memory version {version} not supported').  In the code under test such
+    strings only feed logging and exception texts; no harness assertion looks at a message text."""
     from crosshair.core import _PATCH_REGISTRATIONS
-    from crosshair.libimpl.builtinslib import SymbolicBytes, SymbolicByteArray
+    from crosshair.libimpl.builtinslib import SymbolicBytes, SymbolicByteArray, SymbolicInt
     orig = _PATCH_REGISTRATIONS[format]
 
     def _format(obj, format_spec=''):
         with NoTracing():
             if isinstance(obj, (SymbolicBytes, SymbolicByteArray)):
                 return '<buffer>'
+            if isinstance(obj, SymbolicInt) and format_spec in ('', 'd'):
+                return '<int>'          # only message texts (RuntimeError / log lines) format numbers in this code
         return orig(obj, format_spec)
     _PATCH_REGISTRATIONS[format] = _format
 
@@ -431,3 +434,76 @@ def iff(a, b):
         va = a.var if sa else z3.BoolVal(bool(a))
         vb = b.var if sb else z3.BoolVal(bool(b))
         return SymbolicBool(va == vb)
+
+
+def install_bytes_split():
+    """bytes.split(<one byte>) on a symbolic buffer (`_name.split(b'\\x00')` in DeckMemory._parse): stock CrossHair has
+    no model and realises the buffer.  Model: scan the bytes, deciding `byte == separator` per position."""
+    from crosshair.libimpl.builtinslib import BytesLike, SymbolicByteArray
+    fallback = getattr(BytesLike, 'split', None)
+
+    def split(self, sep=None, maxsplit=-1):
+        if not (isinstance(sep, (bytes, bytearray)) and len(sep) == 1 and is_concrete(sep[0]) and is_concrete(maxsplit)):
+            if fallback is None:
+                raise NotImplementedError('bytes.split with this separator is not modelled')
+            return fallback(self, sep, maxsplit)
+        parts, cur = [], []
+        for b in list(self):
+            if (maxsplit < 0 or len(parts) < maxsplit) and b == sep[0]:
+                parts.append(cur)
+                cur = []
+            else:
+                cur.append(b)
+        parts.append(cur)
+        mk = bytearray if isinstance(self, SymbolicByteArray) else bytes
+        return [mk(p) for p in parts]
+    BytesLike.split = split
+
+
+def check_crc_model(lengths=(1, 2, 3, 7, 8, 11, 16, 24), per_length=12, seed=14):
+    """Differential validation of crc32_linear_term against CPython (symbolic branch: variables, then substitution)."""
+    import binascii
+    import random
+    import z3
+    rnd = random.Random(seed)
+    with NoTracing():
+        for n in lengths:
+            vs = [z3.BitVec(f'crcchk{n}_{i}', 8) for i in range(n)]
+            term = crc32_linear_term(vs)
+            mixed = crc32_linear_term([z3.BitVecVal(0xEB, 8)] + vs[1:])
+            for _ in range(per_length):
+                m = bytes(rnd.randrange(256) for _ in range(n))
+                sub = [(v, z3.BitVecVal(x, 8)) for v, x in zip(vs, m)]
+                got = z3.simplify(z3.substitute(term, *sub)).as_long()
+                if got != binascii.crc32(m):
+                    return f'crc model differs from binascii.crc32 on {m.hex()}'
+                m2 = b'\xeb' + m[1:]
+                if z3.simplify(z3.substitute(mixed, *sub)).as_long() != binascii.crc32(m2):
+                    return f'crc model (constant byte) differs from binascii.crc32 on {m2.hex()}'
+    return None
+
+
+def prove_crc_models_equal(n, timeout_s=100):
+    """Solver proof (pure bit-vector queries, one per output bit, fresh z3 solver) that the affine model and the
+    framework's bit-serial model give the same CRC-32 for EVERY message of n bytes (parity reasoning limits this to
+    n <= 3).  -> 'unsat' (proved) / 'sat' / 'unknown'"""
+    import time
+    import z3
+    from vf.plugins import crc as fw
+    with NoTracing():
+        vs = [z3.BitVec(f'crceq{n}_{i}', 8) for i in range(n)]
+        a, b = fw.crc32_terms(vs), crc32_linear_term(vs)
+        s = z3.SolverFor('QF_BV')
+        t0 = time.time()
+        for i in range(32):
+            left = timeout_s - (time.time() - t0)
+            if left <= 0:
+                return 'unknown'
+            s.set('timeout', int(left * 1000))
+            s.push()
+            s.add(z3.Extract(i, i, a) != z3.Extract(i, i, b))
+            r = str(s.check())
+            s.pop()
+            if r != 'unsat':
+                return r
+        return 'unsat'
